@@ -27,7 +27,7 @@ package middleware
 
 //@ func CreateTokenToSessionFunc$1
 //@ safety
-//@ prop C04 C14
+//@ prop C04 C14 C01
 //@ at call Claims assert[claims-of-the-verified-token] recv(Claims) == ret0(verify) && ret1(verify) == nil && arg(verify, 1) == token
 //@     && arg(Claims, 1) == &claims
 //@ ensures[unverifiable-token-gives-no-session] ret1(verify) != nil ==> ret0 == nil && ret1 == ret1(verify) && !called(Claims)
